@@ -1,6 +1,6 @@
 (* C07 — property theorems.  Only statements, [exact lemma] and Print Assumptions. *)
 From Coq Require Import ZArith List Permutation.
-From FV Require Import Lib.RustInt C05.Model C05.Proofs C07.Proofs.
+From FV Require Import Lib.RustInt C05.Model C05.Proofs C07.Proofs C07.Equiv.
 Import ListNotations.
 Open Scope Z_scope.
 
@@ -42,17 +42,54 @@ Theorem c07_serialize_rename_invariant : forall (rho : Z -> Z) objs objs' ord,
   serialize_ord objs' (map rho ord) = serialize_ord objs ord.
 Proof. exact serialize_rename_invariant. Qed.
 
-(* NOT PROVED (full statements, see notes/C07.md; checked per case by the correspondence shards,
-   which evaluate the model under three different id streams):
-   pack_equivariant : forall d ids ids', strictly_increasing ids -> strictly_increasing ids' ->
-     length ids = length ids' -> dump_table d ids = dump_table d ids'.
-   (kahn_equivariant / shortest_equivariant / store_ids_order_isomorphic are its ingredients;
-    concurrent_determinism and history_independence are corollaries: the ids one thread draws from a
-    shared fetch_add counter, under any interleaving and any counter start, form a strictly increasing
-    stream.) *)
+(* ---- equivariance under strictly monotone renamings of ids (the algorithm inspects ids only through =, <) ---- *)
+
+(* store_ids_order_isomorphic: running TableWriter/ObjectStore with the id stream [map rho ids] yields exactly the
+   rho-image of the store (contents, link targets, assigned ids, unread stream) obtained with [ids] *)
+Theorem c07_store_ids_order_isomorphic : forall (rho : Z -> Z), (forall a b, a < b -> rho a < rho b) ->
+  forall fuel d idx st, add_table fuel d idx (rstore rho st) = option_map (rsi rho) (add_table fuel d idx st).
+Proof. exact add_table_r. Qed.
+
+(* kahn_equivariant / shortest_equivariant / pack_equivariant: the sorts and pack_objects commute with the renaming
+   of a graph (object keys, link targets, node keys, parent lists, order, root) *)
+Theorem c07_kahn_equivariant : forall (rho : Z -> Z), (forall a b, a < b -> rho a < rho b) ->
+  forall g, sort_kahn (rg rho g) = option_map (rg rho) (sort_kahn g).
+Proof. exact sort_kahn_r. Qed.
+Theorem c07_shortest_equivariant : forall (rho : Z -> Z), (forall a b, a < b -> rho a < rho b) ->
+  forall g, sort_shortest_distance (rg rho g) = option_map (rg rho) (sort_shortest_distance g).
+Proof. exact sort_shortest_distance_r. Qed.
+Theorem c07_pack_equivariant : forall (rho : Z -> Z), (forall a b, a < b -> rho a < rho b) ->
+  forall g, pack_objects (rg rho g) = option_map (fun p => (rg rho (fst p), snd p)) (pack_objects g).
+Proof. exact pack_objects_r. Qed.
+Theorem c07_dump_table_equivariant : forall (rho : Z -> Z), (forall a b, a < b -> rho a < rho b) ->
+  forall d ids, dump_table d (map rho ids) = dump_table d ids.
+Proof. exact dump_table_r. Qed.
+
+(* c07_basic_path_counter_independent (in fact for everything the model covers: success bytes, PackingFailed, panic):
+   any two strictly increasing id streams of the same length give the same result *)
+Theorem c07_counter_independent : forall d ids ids', incr ids -> incr ids' -> length ids = length ids' ->
+  dump_table d ids = dump_table d ids'.
+Proof. exact dump_table_any_two_streams. Qed.
+
+(* concurrent_determinism + history_independence: the counter may start anywhere ([base]: arbitrary earlier
+   compilations) and other threads may draw ids in between in any interleaving ([picks] = the strictly
+   increasing positions of this compilation's draws in the global sequence): same result as with ids 0,1,2,... *)
+Theorem c07_concurrent_history_independent : forall d base picks, incr_nat picks ->
+  dump_table d (map (fun i => base + Z.of_nat i) picks) = dump_table d (canonical (length picks)).
+Proof. exact concurrent_history_independent. Qed.
+
+(* NOT covered by these theorems: the space-assignment / isolation / duplication path (not modelled: the
+   model answers Beyond there, identically for all streams), gvar / IVS / klippa: schedule experiment only. *)
 
 Print Assumptions c07_from_obj_store_iteration_independent.
 Print Assumptions c07_dump_table_hash_order_independent_partial.
 Print Assumptions c07_dump_table_hash_order_independent.
 Print Assumptions c07_removed_edges_check_iteration_independent.
 Print Assumptions c07_serialize_rename_invariant.
+Print Assumptions c07_store_ids_order_isomorphic.
+Print Assumptions c07_kahn_equivariant.
+Print Assumptions c07_shortest_equivariant.
+Print Assumptions c07_pack_equivariant.
+Print Assumptions c07_dump_table_equivariant.
+Print Assumptions c07_counter_independent.
+Print Assumptions c07_concurrent_history_independent.
